@@ -312,6 +312,8 @@ def tupStep (ev : XExpr → XM XLoc) : List XExpr → List Val → XM (List Val)
     XM.bind (ev a) (fun x =>
     XM.bind (xget x) (fun c =>
     if c.val.type.major == .none then XM.fail (.err Gen.EXC_RT_COMPOUND_OPAQUE)
+    -- "nesting and table are not allowed", also at run time (4db32b5)
+    else if c.val.type.level > 0 || c.val.type.major == .tup then XM.fail (.err Gen.EXC_RT_FUNC_ARG_TYPE_S)
     else XM.bind (takeArg x) (fun v => tupStep ev as (acc ++ [v]))))
 
 /-- `createEnv`: parameter `k` = the value of the k-th argument expression, evaluated in the CALLER and stored
@@ -460,7 +462,10 @@ def evalX (F : List XFun) : Nat → XExpr → XM XLoc
       XM.bind (xget x0) (fun c0 =>
       if c0.val.isNull then
         XM.bind (evalX F fuel a) (fun x1 =>
-        XM.bind (xget x1) (fun c1 => xalloc (.null c1.val.type.levelUp)))
+        XM.bind (xget x1) (fun c1 =>
+        -- 2c67aef: the null-count branch tests the dimension too
+        if c1.val.type.level ≥ Gen.TYPE_LEVEL_MAX - 1 then XM.fail (.err Gen.EXC_RT_OUT_OF_DIMENSION)
+        else xalloc (.null (levelUp8 c1.val.type))))
       else
         XM.bind (XM.lift c0.val.asInt) (fun k =>
         if k < 0 then XM.fail idxErr else
@@ -471,7 +476,7 @@ def evalX (F : List XFun) : Nat → XExpr → XM XLoc
         if k == 0 then xalloc (.tab hd.1 hd.2 [])
         else
           XM.bind (takeArg x1) (fun v1 =>
-          XM.bind (tabStep (evalX F fuel a) hd.1.levelDown (idxOf k - 1) [v1]) (fun es =>
+          XM.bind (tabStep (evalX F fuel a) (levelDown8 hd.1) (idxOf k - 1) [v1]) (fun es =>
           xalloc (.tab hd.1 hd.2 es)))))))))
     | .tup args =>
       match args with
